@@ -177,6 +177,10 @@ func (s *ECDHSession) Parameter(rand io.Reader, _ *rsa.PublicKey) ([]byte, error
 // SetParameter sets the received parameter from the client. This method is
 // only called by a server.
 func (s *ECDHSession) SetParameter(xB []byte, _ *rsa.PrivateKey) error {
+	if s.priv == nil {
+		// Parameter was never called or the exchange already completed
+		return fmt.Errorf("session has no private key")
+	}
 	s.xB = xB
 
 	// Compute session key
